@@ -35,7 +35,7 @@ def run_checks(checks, tier, seeds):
     return res
 
 
-def sandbox(d):
+def sandbox(d, pre=None):
     global REPO, RUN
     os.makedirs(d, exist_ok=True)
     sh(f"rsync -a --delete --exclude target /repo/ {d}/repo/")
@@ -44,12 +44,21 @@ def sandbox(d):
     sh(f"mkdir -p {d}/verif/evidence {d}/verif/replays")
     sh(f"sed -i 's#path = \"/repo\"#path = \"{d}/repo\"#' {d}/verif/harness/Cargo.toml")
     REPO, RUN = f"{d}/repo", f"{d}/verif"
+    if pre:
+        # a repair that is not in /repo yet: committed in the copy so that `checkout -- .` keeps it
+        print(sh(f"git -C {REPO} apply {pre} && git -C {REPO} -c user.name=x -c user.email=x@x commit -qam pre-patch && echo pre-patch applied").stdout.strip())
 
 
 def main():
     if "--sandbox" in sys.argv:
         i = sys.argv.index("--sandbox")
-        sandbox(sys.argv[i + 1])
+        pre = None
+        if "--pre-patch" in sys.argv:
+            j = sys.argv.index("--pre-patch")
+            pre = sys.argv[j + 1]
+            del sys.argv[j:j + 2]
+            i = sys.argv.index("--sandbox")
+        sandbox(sys.argv[i + 1], pre)
         del sys.argv[i:i + 2]
     args = [a for a in sys.argv[1:] if not a.startswith("--")]
     all_checks = "--all-checks" in sys.argv
